@@ -907,7 +907,9 @@ pub fn gen_repr(rg: &mut Rg, repr: Option<&str>, derives: &[String]) -> EnumSpec
             // an unused const parameter is legal on a field-less enum
             e.const_param = rg.chance(1, 6);
         }
-        let use_base = explicit_ok && rg.chance(1, 5);
+        // a typed constant can only be used with an explicit integer repr: in a repr-less enum rustc types the
+        // discriminants isize while from_repr works in usize (DESIGN O11)
+        let use_base = explicit_ok && repr.is_some() && rg.chance(1, 5);
         if use_base {
             let b = if signed { rg.range(0, 40) as i128 - 20 } else { rg.range(0, 40) as i128 };
             e.base_const = Some(b);
@@ -942,7 +944,7 @@ pub fn gen_repr(rg: &mut Rg, repr: Option<&str>, derives: &[String]) -> EnumSpec
                     0 if val >= 0 => format!("{:#x}", val),
                     1 if val >= 0 && val.count_ones() == 1 => format!("1 << {}", val.trailing_zeros()),
                     2 if val >= 3 && val - 3 <= hi => format!("{} + 3", val - 3),
-                    3 if use_base && val - e.base_const.unwrap() >= 0 && val - e.base_const.unwrap() <= 1000 => format!("BASE + {}", val - e.base_const.unwrap()),
+                    3 if use_base && val - e.base_const.unwrap() >= 0 && val - e.base_const.unwrap() <= hi.min(1000) => format!("BASE + {}", val - e.base_const.unwrap()),
                     _ => format!("{}", val),
                 };
                 v.disc = Some(Disc { text, value: val });
